@@ -96,6 +96,13 @@ func (c *VirtualTable) BestIndex(input *sqlite.IndexInfoInput) (*sqlite.IndexInf
 	indexIn := make([]s3db.IndexInput, len(input.Constraints))
 	for i, c := range input.Constraints {
 		op := mapOp(c.Op, c.Usable)
+		if c.Usable && input.Collation(i) != "BINARY" {
+			// The tree is in binary order. Under another collation rows
+			// that match (k = 'AB' COLLATE NOCASE matches 'ab') lie outside
+			// the window the operand gives in that order: leave the
+			// constraint to SQLite, which checks every row.
+			op = s3db.OpIgnore
+		}
 		indexIn[i] = s3db.IndexInput{
 			ColumnIndex: c.ColumnIndex,
 			Op:          op,
